@@ -1,27 +1,66 @@
 """C11 - LLCP PDU encoding and decoding are mutually consistent.
 
-L1: theorems of NfcVerif.Props.C11 about the executable model NfcVerif.Model.Pdu
-    (transcription of nfc/llcp/pdu.py): round trip for all PDU types, length,
-    decode raises nothing but DecodeError for any octet string (including
-    aggregates), the decoder equals an independent reading of the frame
-    formats on every octet string, a decoded PDU re-encodes to its normal
-    form, an aggregated PDU is decoded from its own octets.
+L1: theorems of NfcVerif.Props.C11 about the executable models NfcVerif.Model.Pdu
+    (transcription of nfc/llcp/pdu.py) and NfcVerif.Model.PduObj (the PDU classes
+    as mutable objects): round trip for all PDU types, length, decode raises
+    nothing but DecodeError for any octet string (including aggregates), the
+    decoder equals an independent reading of the frame formats on every octet
+    string and that reading reads every valid encoding back, a decoded PDU
+    re-encodes to its normal form, an aggregated PDU is decoded from its own
+    octets; round trip / length / == at every point of every history of attribute
+    assignments, appends and observations on one object; PAX property setters
+    and getters; FrameReject.from_pdu.
 L2: the model is compared with the real nfc.llcp.pdu: decode() on every octet
     string of <= 2 (thorough: <= 3) octets, every 2-octet header with tails,
-    mutated encodings, random strings up to 2200 octets, aggregates, decode with
-    offset/size; encode()/len() on type-directed random PDUs with boundary and
-    out-of-range field values.  Fields and exception classes are compared.
+    products of a TLV pool and a swept TLV for the parameter-list types, products
+    of aggregated elements, mutated encodings, random strings up to 2200 octets,
+    decode with offset/size; encode()/len() on the exhaustive default / zero /
+    maximum / absent grid of every PDU type plus type-directed random PDUs with
+    boundary and out-of-range field values; operation sequences (construct,
+    observe, assign, observe, compare) on one object for every class and every
+    attribute.  Fields and exception classes are compared.
 L3: oracles on the real code alone: field-wise round trip, len, no internal
-    exception, re-encode fixpoint, an independent Python reading of the LLCP
-    formats (harness/sims/pdu_ref.py), locality of aggregated PDUs.
+    exception, termination, re-encode fixpoint, an independent Python reading of
+    the LLCP formats (harness/sims/pdu_ref.py), locality of aggregated PDUs;
+    on objects: an observer changes no field, the encoding / length of an object
+    equals that of a new object with the same fields, == is field equality.
 """
 import itertools
 import logging
+import signal
+import time
 
 from common import Model, hx, exc_name, INTERNAL
 from sims import pdu_ref as R
+from sims import pdu_obj as O
 
 logging.disable(logging.CRITICAL)
+
+
+class NonTermination(Exception):
+    """a call into nfcpy used more than CPU_BUDGET seconds of processor time"""
+
+
+# user-mode CPU seconds of THIS process (ITIMER_VIRTUAL) granted to one call into nfcpy: independent of the load of
+# the machine.  A call normally needs microseconds; after a first overrun the budget shrinks so that a code change
+# that loops on many inputs cannot stall the check.
+CPU_BUDGET = [20.0]
+
+
+def _on_vtalrm(signum, frame):
+    spent = CPU_BUDGET[0]
+    CPU_BUDGET[0] = max(0.5, spent / 4)
+    raise NonTermination("no result after %.1f s of processor time" % spent)
+
+
+def guarded(fn, *args):
+    """fn(*args) under a processor-time budget; a loop in nfcpy that does not terminate becomes an exception
+    (class NonTermination) that is reported like any other unexpected exception"""
+    signal.setitimer(signal.ITIMER_VIRTUAL, CPU_BUDGET[0])
+    try:
+        return fn(*args)
+    finally:
+        signal.setitimer(signal.ITIMER_VIRTUAL, 0)
 
 LEAN_TARGETS = ["NfcVerif.Props.C11", "drv_c11", "NfcVerif.Props.TablesPdu"]
 
@@ -39,6 +78,21 @@ THEOREMS = [
     "NfcVerif.C11.pdu_decode_reencode",
     "NfcVerif.C11.pdu_norm_idem",
     "NfcVerif.C11.pdu_norm_valid",
+    # PDU objects (NfcVerif.Pdu.Obj): the property after any history of assignments and observations
+    "NfcVerif.C11.obj_observers_pure",
+    "NfcVerif.C11.obj_reply_at",
+    "NfcVerif.C11.obj_history_roundtrip",
+    "NfcVerif.C11.obj_assign_valid",
+    "NfcVerif.C11.obj_apply_valid",
+    "NfcVerif.C11.obj_valid_history_roundtrip",
+    "NfcVerif.C11.pdu_eq_iff_fields",
+    "NfcVerif.C11.pdu_encode_injective",
+    "NfcVerif.C11.pax_property_set_get",
+    "NfcVerif.C11.pax_lto_exact",
+    "NfcVerif.C11.pax_setters_valid",
+    "NfcVerif.C11.frmr_from_pdu_valid",
+    "NfcVerif.C11.pdu_encoding_is_octets",
+    "NfcVerif.C11.pdu_encoding_read_by_spec",
 ]
 
 SIMPLE = ["symm", "pax", "ui", "connect", "disc", "cc", "dm", "frmr", "snl", "dps", "i", "rr", "rnr", "unknown"]
@@ -206,8 +260,11 @@ def run(ck):
     rng = ck.rng
     T = ck.thorough
     ck.rule = ("decode cases: one octet string (+ offset/size); non-trivial = at least 2 octets. encode/len cases: "
-               "one PDU description; non-trivial = not a bare header-only PDU. oracle cases are counted with the "
-               "same canonical form; distinct by hash of the canonical case")
+               "one PDU description; non-trivial = not a bare header-only PDU. object cases: one initial PDU plus a "
+               "sequence of operations (set / append / encode / len / encode_header / == / str / property read / field "
+               "read) on the same object; non-trivial = the sequence assigns or appends at least once. "
+               "FrameReject.from_pdu cases: PDU, flags, four counters. oracle cases are counted with the same canonical "
+               "form; distinct by hash of the canonical case")
     ck.assumptions += [
         "integer PDU fields hold non-negative ints (None/negative ints in integer fields are outside the model); "
         "octet-string fields hold bytes or None",
@@ -218,18 +275,26 @@ def run(ck):
         "of DISC/RR/RNR and a single trailing octet after a TLV list) are part of both readings",
         "an aggregate holds non-aggregate PDUs (model type SPdu); encoding an AGF object that holds another AGF "
         "object is outside the model and is refused by decode",
+        "objects: assigning `ns` of an RR/RNR PDU (a hidden attribute that encode_header packs into the reserved N(S) bits "
+        "and decode resets), `ptype` of the 14 fixed classes and None in integer attributes are outside the model and are "
+        "not generated; str() is only required to change nothing and not to raise on valid fields",
     ]
-    ck.trusted += ["hand-written Lean model NfcVerif.Model.Pdu, tied by differential runs",
-                   "harness/props/c11.py, harness/sims/pdu_ref.py (generators, field extraction, reference decoder)"]
+    ck.trusted += ["hand-written Lean models NfcVerif.Model.Pdu and NfcVerif.Model.PduObj, tied by differential runs",
+                   "harness/props/c11.py, harness/sims/pdu_ref.py, harness/sims/pdu_obj.py (generators, field extraction, "
+                   "reference decoder, validity predicate, operations on real objects)"]
     ck.lean("NfcVerif.Props.C11", THEOREMS)
     if T:
         ck.leanchecker(["NfcVerif.Props.C11"])
     model = Model("drv_c11")
+    signal.signal(signal.SIGVTALRM, _on_vtalrm)
 
     def real_decode(b, off=None, size=None):
         """-> (canonical line, description|None)"""
         try:
-            o = P.decode(b) if off is None else P.decode(b, off, size)
+            o = guarded(P.decode, b) if off is None else guarded(P.decode, b, off, size)
+            if type(o) is P.AggregatedFrame and len(o._aggregate) > max(8, len(b)):
+                # more aggregated PDUs than octets: do not build the text of a runaway result, report it as it is
+                return "ok agf with %d aggregated PDUs decoded from %d octets" % (len(o._aggregate), len(b)), None
             d = R.from_obj(P, o)
             return "ok " + R.text(d), d
         except Exception as e:  # noqa
@@ -237,13 +302,13 @@ def run(ck):
 
     def real_encode(desc):
         try:
-            return "ok " + hx(P.encode(R.to_obj(P, desc)))
+            return "ok " + hx(guarded(P.encode, R.to_obj(P, desc)))
         except Exception as e:  # noqa
             return "exc " + exc_name(e)
 
     def real_len(desc):
         try:
-            return "ok %d" % len(R.to_obj(P, desc))
+            return "ok %d" % guarded(len, R.to_obj(P, desc))
         except Exception as e:  # noqa
             return "exc " + exc_name(e)
 
@@ -297,6 +362,8 @@ def run(ck):
         if name is not None and name != "DecodeError":
             if name == "RecursionError":
                 ck.fail("agf-nested-recursion-error", "decode of %d octets of nested AGF headers raised RecursionError" % len(b), rp)
+            elif name == "NonTermination":
+                ck.fail("decode-does-not-terminate", "decode(%s) did not return within the processor-time budget" % b.hex()[:200], rp)
             else:
                 ck.fail("decode-internal-exception", "decode(%s) raised %s" % (b.hex()[:200], name), rp)
             return None
@@ -404,6 +471,13 @@ def run(ck):
         flush()
 
     witnesses()
+    phases = []
+    t_mark = [time.time(), time.process_time()]
+
+    def phase(name):
+        now = [time.time(), time.process_time()]
+        phases.append("%s %.1f/%.1f" % (name, now[0] - t_mark[0], now[1] - t_mark[1]))
+        t_mark[:] = now
 
     # exhaustive short strings
     dec_case(b"", "dec:exhaustive")
@@ -500,6 +574,7 @@ def run(ck):
             dec_case(e, "dec:nested-agf")
     flush()
 
+    phase("decode")
     # ------------------------------------------------------------ locality / decode with offset and size
     for _ in range(20000 if T else 4000):
         desc = gen_valid(rng, rng.choice(SIMPLE), small=True)
@@ -605,8 +680,354 @@ def run(ck):
             flush()
     flush()
 
+
+    phase("decode-at+encode")
+    # ------------------------------------------------------------ encode / len: exhaustive boundary grids
+    # every optional parameter of every PDU type at its default, at zero, at its maximum and absent (product per
+    # type), every value of every one-octet / nibble field, every DSAP x SSAP: deterministic, not drawn
+    simple_sample = []
+    for n, desc in enumerate(O.grid(T)):
+        enc_case(desc, True, "enc:grid:" + desc[0])
+        if n % 97 == 0 or (desc[0] in ("pax", "connect", "cc", "snl", "dps") and n % 13 == 0):
+            simple_sample.append(desc)
+        if len(pending) > 40000:
+            flush()
+    for desc in O.agf_grid(simple_sample):
+        enc_case(desc, True, "enc:grid:agf")
+    flush()
+
+    phase("grid")
+    # ------------------------------------------------------------ decode: products of a TLV pool for PAX/CONNECT/CC/SNL/DPS
+    # (the classes whose decode/encode/len are not regenerated by the function translator), alone and aggregated
+    pool_depth = 2
+    for body in O.tlv_bodies(pool_depth):
+        for hdr in (b"\x00\x40", b"\x11\x20", b"\x81\x84", b"\x06\x41", b"\x02\x80"):
+            e = hdr + body
+            dec_case(e, "dec:tlv-product")
+            if len(body) % 3 != 1:
+                dec_case(b"\x00\x80\x00\x02\x00\x00" + len(e).to_bytes(2, "big") + e, "dec:tlv-product-agf")
+            else:
+                dec_case(b"\x00\x80" + len(e).to_bytes(2, "big") + e + b"\x00\x02\x05\x41", "dec:tlv-product-agf")
+        if len(pending) > 40000:
+            flush()
+    if T:
+        for combo in itertools.product(O.TLV_POOL, repeat=3):
+            body = b"".join(combo)
+            for hdr in (b"\x00\x40", b"\x11\x20", b"\x81\x84", b"\x06\x41", b"\x02\x80"):
+                dec_case(hdr + body, "dec:tlv-product3")
+            if len(pending) > 40000:
+                flush()
+    flush()
+
+    # one TLV swept over its type, length and value: T (all 256; quick: the assigned types and their neighbours) x
+    # L 0..3 x V over {00, 01, ff}^L, alone and followed by a well-formed parameter, in each parameter-list PDU type
+    for t_ in (range(256) if T else list(range(17)) + [127, 128, 254, 255]):
+        for l_ in range(4):
+            for v_ in itertools.product((0, 1, 255), repeat=l_):
+                tlv = bytes([t_, l_]) + bytes(v_)
+                for hdr, nxt in ((b"\x00\x40", b"\x04\x01\x64"), (b"\x11\x20", b"\x05\x01\x02"), (b"\x81\x84", b"\x02\x02\x00\x78"),
+                                 (b"\x06\x41", b"\x09\x02\x01\x10"), (b"\x02\x80", b"\x0b\x01\x07")):
+                    dec_case(hdr + tlv, "dec:tlv-sweep")
+                    dec_case(hdr + tlv + nxt, "dec:tlv-sweep")
+        if len(pending) > 40000:
+            flush()
+    flush()
+
+    # aggregates: every pair of length-prefixed elements from a pool (well-formed and malformed elements, length field
+    # exact / one more / one less / 0 / 0xFFFF), with 0..2 surplus octets
+    for body in O.agf_bodies(2):
+        dec_case(b"\x00\x80" + body, "dec:agf-product")
+        if len(body) % 5 == 0:
+            dec_case(b"\x00\x80" + body + b"\x00", "dec:agf-product")
+            dec_case(b"\x00\x81" + body, "dec:agf-product")
+        if len(pending) > 40000:
+            flush()
+    flush()
+
+    phase("tlv+agf products")
+    # ------------------------------------------------------------ PDU objects: assignments and repeated observation
+    # PDU objects are mutable (tco assigns ns / nr after construction, llc fills PAX through its properties and appends
+    # to the SNL lists, == encodes both sides).  The round trip and the length must hold for the field values an object
+    # has when it is observed, whatever was assigned and observed before.  Model: NfcVerif.Pdu.Obj (reply = function
+    # of the current fields, observers change nothing).
+    def fields(obj):
+        try:
+            return R.from_obj(P, obj)
+        except Exception:  # noqa
+            return None
+
+    def item_len(q):
+        try:
+            return len(P.encode(R.to_obj(P, q)))
+        except Exception:  # noqa
+            return 1 << 30
+
+    def valid(desc):
+        try:
+            return O.is_valid(desc, item_len)
+        except Exception:  # noqa
+            return False
+
+    def pax_props(obj):
+        out = {}
+        for g in ("version", "miu", "wks", "lto", "lsc", "dpc"):
+            try:
+                v = getattr(obj, g)
+                out[g] = tuple(v) if g == "version" else v
+            except Exception as e:  # noqa
+                out[g] = "exc " + exc_name(e)
+        return out
+
+    def seq_case(desc, ops, bucket, via_decode=False):
+        rp = {"pdu": R.text(desc)[:2000], "operations": [O.op_text(o)[:300] for o in ops]}
+        try:
+            obj = R.to_obj(P, desc)
+            if via_decode:
+                obj = P.decode(P.encode(obj))
+                rp["object"] = "decode(encode(pdu))"
+        except Exception as e:  # noqa
+            if valid(desc):
+                ck.fail("valid-pdu-not-encodable", "constructing / decoding %s raised %s" % (R.text(desc)[:200], exc_name(e)), rp)
+            return
+        replies = []
+        mutated = False
+        for i, op in enumerate(ops):
+            k = op[0]
+            before = fields(obj) if k in O.OBSERVERS else None
+            props0 = pax_props(obj) if k == "set" and op[1] in O.PAX_PROPS and type(obj) is P.ParameterExchange else None
+            rep = guarded(O.apply_real, P, obj, op, exc_name, i)
+            replies.append(rep)
+            if k not in O.OBSERVERS:
+                mutated = True
+                if props0 is not None:
+                    # the public PAX properties (what llc.activate writes and reads) obey get-after-set, and a setter
+                    # touches no other property - judged on the real object alone
+                    want = O.pax_expect(op[1], op[2], props0)
+                    got = pax_props(obj)
+                    if want is not None and got != want:
+                        ck.fail("pax-property-setter-getter", "pax.%s = %r on a PAX PDU with the properties %s gives %s, expected %s"
+                                % (op[1], op[2], props0, got, want),
+                                dict(rp, step=i, properties_before=str(props0), properties_after=str(got), expected=str(want)))
+                continue
+            cur = fields(obj)
+            hist = " ; ".join(O.op_text(o)[:60] for o in ops[:i + 1])
+            rq = dict(rp, step=i, reply=rep[:600], fields=None if cur is None else R.text(cur)[:600])
+            if cur != before or cur is None:
+                ck.fail("observer-changes-fields", "%s on %s: the fields were %s and are %s afterwards"
+                        % (hist[-300:], R.text(desc)[:120], None if before is None else R.text(before)[:160],
+                           None if cur is None else R.text(cur)[:160]), rq)
+                continue
+            ok = valid(cur)
+            try:
+                fresh = R.to_obj(P, cur)
+            except Exception:  # noqa
+                continue
+            if k == "enc":
+                try:
+                    want = "ok " + hx(P.encode(fresh))
+                except Exception as e:  # noqa
+                    want = "exc " + exc_name(e)
+                if rep != want:
+                    ck.fail("encoding-depends-on-history", "after %s the object has the fields %s and encodes to %s, "
+                            "a new object with the same fields encodes to %s" % (hist[-300:], R.text(cur)[:160], rep[:160], want[:160]),
+                            dict(rq, fresh=want[:600]))
+                if not rep.startswith("ok"):
+                    if ok:
+                        ck.fail("valid-pdu-not-encodable", "after %s: encode of %s raised %s" % (hist[-300:], R.text(cur)[:160], rep), rq)
+                    continue
+                e = bytes.fromhex(rep[3:]) if rep[3:] != "-" else b""
+                try:
+                    n = len(obj)
+                except Exception as ex:  # noqa
+                    n = "exc " + exc_name(ex)
+                if n != len(e):
+                    ck.fail("len-differs-from-encoding", "after %s: len = %s, encoding %s has %d octets" % (hist[-300:], n, rep[3:160], len(e)), rq)
+                if ok:
+                    back, d = real_decode(e)
+                    if d != cur:
+                        ck.fail("roundtrip-field-mismatch", "after %s the object has the fields %s, decode(encode(.)) = %s"
+                                % (hist[-300:], R.text(cur)[:160], back[:160]), dict(rq, decoded=back[:600]))
+            elif k == "len":
+                try:
+                    want = "ok %d" % len(fresh)
+                except Exception as e:  # noqa
+                    want = "exc " + exc_name(e)
+                if rep != want:
+                    ck.fail("len-depends-on-history", "after %s: len = %s, a new object with the same fields %s has len %s"
+                            % (hist[-300:], rep, R.text(cur)[:160], want), dict(rq, fresh=want))
+            elif k == "eq":
+                if ok and valid(op[1]):
+                    want = "ok T" if R.norm(cur) == R.norm(op[1]) else "ok F"
+                    if rep != want:
+                        ck.fail("eq-differs-from-fields", "after %s: (%s == %s) gave %s" % (hist[-300:], R.text(cur)[:120], R.text(op[1])[:120], rep), rq)
+            elif k in ("str", "state", "hdr", "get"):
+                if ok and rep.startswith("exc"):
+                    ck.fail("observer-raises", "after %s: %s of %s raised %s" % (hist[-300:], k, R.text(cur)[:160], rep), rq)
+        line = O.seq_text(desc, ops)
+        if len(line) < 300000:
+            pending.append((line, " | ".join(replies), rp))
+            stats["seq"] = stats.get("seq", 0) + 1
+        ck.case(("seq", line), mutated, bucket,
+                sample={"request": line[:160], "impl": " | ".join(replies)[:160]} if rng.random() < 3e-4 else None)
+        if len(pending) > 20000:
+            flush()
+
+    after = lambda base: [("enc",), ("len",), ("hdr",), ("state",), ("eq", base)]
+    # (1) observe, assign one attribute, observe: every class x every attribute x every boundary value x every observer
+    for kind in O.KINDS:
+        for base, attr, v in O.assign_neighbourhood(kind):
+            for pre in O.pre_observers(base):
+                seq_case(base, ([pre] if pre else []) + [("set", attr, v)] + after(base), "seq:assign:" + kind)
+        for base, attr, v in O.assign_neighbourhood(kind, with_invalid=True):
+            if v in O.values(kind, attr)[1]:
+                for pre in (None, ("enc",), ("len",)):
+                    seq_case(base, ([pre] if pre else []) + [("set", attr, v), ("enc",), ("len",), ("state",)], "seq:assign-invalid:" + kind)
+        for attr in O.STRAY.get(kind, []):
+            if attr in O.VALUES or attr == "miu":
+                v = O.values(kind, attr)[0][-1]
+                seq_case(O.BASES[kind][-1], [("enc",), ("set", attr, v), ("enc",), ("len",), ("state",)], "seq:stray-attribute")
+    # (2) the send path of a data link connection: N(S) at send(), comparison in the queue, N(R) at dequeue
+    for ns in range(16):
+        for nr in range(16):
+            seq_case(("i", 32, 16, (ns + 1) % 16, (nr + 5) % 16, b"x"),
+                     [("enc",), ("set", "ns", ns), ("eq", ("i", 32, 16, ns, (nr + 5) % 16, b"x")), ("set", "nr", nr), ("enc",), ("len",),
+                      ("hdr",), ("state",), ("eq", ("i", 32, 16, ns, nr, b"x"))], "seq:send-path")
+            seq_case(("frmr", 32, 16, 1, 12, 0, 0, 0, 0, 0, 0),
+                     [("len",), ("enc",), ("set", "ns", ns), ("set", "nr", nr), ("set", "vs", nr), ("set", "vra", ns), ("enc",), ("state",)],
+                     "seq:send-path")
+    for k in ("rr", "rnr"):
+        for a in range(16):
+            for b_ in range(16):
+                seq_case((k, 16, 32, a), [("eq", (k, 16, 32, a)), ("set", "nr", b_), ("enc",), ("len",), ("state",), ("eq", (k, 16, 32, b_))],
+                         "seq:send-path")
+    # (3) PAX properties (llc.activate fills the PAX PDU through them): setters and getters, exhaustive where finite
+    for o_ in [None] + list(range(256)):
+        for v in (0, 1, 2, 3, 4, 7, 255):
+            seq_case(("pax", 0, 0, None, None, None, None, None),
+                     [("set", "_opt", o_), ("set", "lsc", v), ("state",), ("get", "lsc"), ("get", "dpc"), ("enc",)], "seq:pax-property")
+        for v in (0, 1, 2):
+            seq_case(("pax", 0, 0, None, None, None, None, None),
+                     [("set", "_opt", o_), ("enc",), ("set", "dpc", v), ("state",), ("get", "lsc"), ("get", "dpc"), ("enc",), ("len",)],
+                     "seq:pax-property")
+    for v in list(range(0, 2600 if T else 300)) + [2549, 2550, 2559, 2560, 2561, 5000, 65535, 10 ** 6]:
+        seq_case(("pax", 0, 0, None, None, None, None, None), [("len",), ("set", "lto", v), ("state",), ("get", "lto"), ("enc",), ("len",)],
+                 "seq:pax-property")
+    for v in range(256):
+        seq_case(("pax", 0, 0, 0x13, 120, 0x13, 100, 3), [("enc",), ("set", "_lto", v), ("get", "lto"), ("enc",), ("len",), ("state",)],
+                 "seq:pax-property")
+        seq_case(("pax", 0, 0, 0x13, 120, 0x13, 100, 3), [("set", "_version", v), ("get", "version"), ("enc",), ("len",)], "seq:pax-property")
+    for a in (0, 1, 2, 15, 16, 17, 255):
+        for b_ in (0, 1, 3, 15, 16, 255):
+            seq_case(("pax", 0, 0, None, None, None, None, None), [("set", "version", (a, b_)), ("state",), ("get", "version"), ("enc",), ("len",)],
+                     "seq:pax-property")
+    for v in [0, 1, 127, 128, 129, 255, 256, 2174, 2175, 2176, 128 + 0x800, 128 + 65535, 128 + 65536]:
+        seq_case(("pax", 0, 0, None, 5, None, None, None), [("enc",), ("set", "miu", v), ("state",), ("get", "miu"), ("enc",), ("len",)], "seq:pax-property")
+    for v in [0, 1, 0x13, 0x8000, 0xFFFF, 0x10000, 0x1FFFF, 0x12345]:
+        seq_case(("pax", 0, 0, None, None, 7, None, None), [("enc",), ("set", "wks", v), ("state",), ("get", "wks"), ("enc",), ("len",)], "seq:pax-property")
+    for base in O.BASES["pax"]:
+        seq_case(base, [("get", g) for g in ("version", "miu", "wks", "lto", "lsc", "dpc")] + [("enc",), ("state",)], "seq:pax-property", via_decode=True)
+    # the PAX PDU as nfc.llcp.llc builds it
+    for lto, lsc, dpc, miu in itertools.product((100, 500, 1000, 2550), (0, 1, 2, 3), (None, 1), (128, 248, 2175)):
+        ops = [("set", "version", (1, 3)), ("set", "wks", 0x13), ("set", "miu", miu)]
+        ops += [("set", "lto", lto)] if lto != 100 else []
+        ops += [("set", "lsc", lsc), ("str",)] + ([("set", "dpc", dpc)] if dpc else []) + [("enc",), ("len",), ("state",), ("get", "lto"), ("get", "lsc")]
+        seq_case(("pax", 0, 0, None, None, None, None, None), ops, "seq:pax-property")
+    # (4) aggregates: append, assignment to an aggregated PDU (the aggregate holds references)
+    for base in O.AGF_BASES:
+        for pre in (None, ("enc",), ("len",), ("str",)):
+            for q in (("disc", 1, 2), ("i", 32, 16, 3, 4, b"abc"), ("snl", 1, 1, [(1, b"a")], []), ("symm", 0, 0)):
+                seq_case(base, ([pre] if pre else []) + [("app", q), ("enc",), ("len",), ("state",)], "seq:agf")
+            for i, item in enumerate(base[3]):
+                for attr in O.ATTRS[item[0]]:
+                    for v in O.values(item[0], attr)[0][:3]:
+                        seq_case(base, ([pre] if pre else []) + [("seti", i, attr, v), ("enc",), ("len",), ("state",), ("eq", base)], "seq:agf")
+            for attr, v in (("dsap", 1), ("ssap", 63), ("dsap", 0)):
+                seq_case(base, ([pre] if pre else []) + [("set", attr, v), ("enc",), ("len",), ("hdr",), ("state",)], "seq:agf")
+    # (4b) FrameReject.from_pdu: the FRMR PDU tco answers with is built from the rejected PDU and the counters
+    class Dlc(object):
+        pass
+
+    def frmr_case(desc, flags, cnt, bucket):
+        dlc = Dlc()
+        dlc.send_cnt, dlc.send_ack, dlc.recv_cnt, dlc.recv_ack = cnt
+        rp = {"pdu": R.text(desc)[:600], "flags": flags, "send_cnt, send_ack, recv_cnt, recv_ack": list(cnt)}
+        try:
+            f = guarded(P.FrameReject.from_pdu, R.to_obj(P, desc), flags, dlc)
+            fd = R.from_obj(P, f)
+            real = "ok " + R.text(fd)
+        except Exception as e:  # noqa
+            fd, real = None, "exc " + exc_name(e)
+        pending.append(("frmr %s %d %d %d %d %s" % ((flags or "-",) + tuple(cnt) + (R.text(desc),)), real, rp))
+        ck.case(("frmr", R.text(desc), flags, cnt), True, bucket)
+        if valid(desc) and len(set(flags)) == len(flags) and max(cnt) <= 15:
+            if fd is None or not valid(fd):
+                ck.fail("frmr-from-pdu-invalid", "FrameReject.from_pdu(%s, %r, counters %s) = %s" % (R.text(desc)[:160], flags, cnt, real[:200]), rp)
+            else:
+                try:
+                    e = P.encode(f)
+                    back, d = real_decode(e)
+                    if d != fd or len(f) != len(e):
+                        ck.fail("roundtrip-field-mismatch", "FrameReject.from_pdu(%s, %r, %s) = %s, decode(encode(.)) = %s, len %d / %d octets"
+                                % (R.text(desc)[:120], flags, cnt, real[:160], back[:160], len(f), len(e)), rp)
+                except Exception as e:  # noqa
+                    ck.fail("valid-pdu-not-encodable", "encode(FrameReject.from_pdu(%s, %r, %s)) raised %s" % (R.text(desc)[:160], flags, cnt, exc_name(e)), rp)
+
+    subsets = ["".join(c for c, k in zip("SRIW", bits) if k) for bits in itertools.product((0, 1), repeat=4)]
+    for kind in O.KINDS:
+        for base in O.BASES[kind]:
+            for flags in subsets:
+                frmr_case(base, flags, (1, 2, 3, 4), "frmr-from-pdu")
+            for cnt in ((0, 0, 0, 0), (15, 15, 15, 15), (15, 0, 7, 8)):
+                frmr_case(base, "W", cnt, "frmr-from-pdu")
+    for ns in range(16):
+        for nr in range(16):
+            frmr_case(("i", 32, 16, ns, nr, b"x"), "SRIW"[(ns + nr) % 4], (nr, ns, 15 - nr, 15 - ns), "frmr-from-pdu")
+        frmr_case(("rr", 1, 63, ns), "S", (ns, ns, ns, ns), "frmr-from-pdu")
+        frmr_case(("rnr", 63, 1, ns), "I", (0, ns, 0, ns), "frmr-from-pdu")
+    for _ in range(3000 if T else 400):
+        flags = "".join(rng.choice("SRIW") for _ in range(rng.choice([0, 1, 1, 2, 3, 5])))
+        frmr_case(gen_valid(rng, rng.choice(SIMPLE), small=True), flags, tuple(rng.choice([0, 1, 15, 16, rng.randrange(16)]) for _ in range(4)),
+                  "frmr-from-pdu")
+    flush()
+    # (5) random histories on every class
+    for _ in range(80000 if T else 4000):
+        kind = rng.choice(O.KINDS + ["agf"])
+        if kind == "agf":
+            base = rng.choice(O.AGF_BASES) if rng.random() < 0.5 else gen_valid(rng, "agf")
+        else:
+            base = rng.choice(O.BASES[kind]) if rng.random() < 0.5 else gen_valid(rng, kind, small=True)
+        ops, nitems = [], len(base[3]) if kind == "agf" else 0
+        kinds_in = [q[0] for q in base[3]] if kind == "agf" else []
+        for _ in range(rng.randrange(3, 15)):
+            r = rng.random()
+            if r < 0.45:
+                if kind == "agf" and rng.random() < 0.8:
+                    if nitems and rng.random() < 0.6:
+                        i = rng.randrange(nitems)
+                        attr = rng.choice(O.ATTRS[kinds_in[i]])
+                        good, bad = O.values(kinds_in[i], attr)
+                        ops.append(("seti", i, attr, rng.choice(good if rng.random() < 0.85 or not bad else bad)))
+                    else:
+                        q = gen_valid(rng, rng.choice(SIMPLE), small=True)
+                        ops.append(("app", q))
+                        nitems += 1
+                        kinds_in.append(q[0])
+                else:
+                    attr = rng.choice(O.ATTRS[kind])
+                    good, bad = O.values(kind, attr)
+                    ops.append(("set", attr, rng.choice(good if rng.random() < 0.85 or not bad else bad)))
+            else:
+                other = base if rng.random() < 0.5 else gen_valid(rng, kind if rng.random() < 0.8 else None, small=True)
+                ops.append(O.observer(rng, other, kind))
+        ops += [("enc",), ("len",), ("state",)]
+        seq_case(base, ops, "seq:random:" + kind, via_decode=kind != "agf" and rng.random() < 0.25 and valid(base))
+    flush()
+
+    phase("objects")
+    ck.notes.append("phases (wall s / cpu s of the harness process, model driver excluded): " + ", ".join(phases))
     ck.tie("pdu model vs nfc.llcp.pdu", cases=stats["cases"], disagreements=stats["dis"], exhaustive=False)
     ck.tie("Spec.decode (Lean reading of the LLCP formats) vs nfc.llcp.pdu.decode", cases=stats["spec"],
            disagreements=stats["specdis"], exhaustive=False)
-    ck.notes.append("tie requests: %d (decode, decode-at, encode, len); every decode request below 3 octets "
-                    "(thorough: below 4) is part of an exhaustive enumeration" % stats["cases"])
+    ck.notes.append("tie requests: %d (decode, decode-at, encode, len, of which %d operation sequences on one PDU object); "
+                    "every decode request below 3 octets (thorough: below 4) is part of an exhaustive enumeration"
+                    % (stats["cases"], stats.get("seq", 0)))
